@@ -217,6 +217,23 @@ func (u *Universe) pos(p token.Pos) string {
 
 // funcDecl finds a function or method declaration: name is "Func" or "Type.Method"
 func (u *Universe) funcDecl(rel, name string) (*ast.FuncDecl, *packages.Package) {
+	fd, p := u.funcDeclExact(rel, name)
+	if fd != nil || p == nil {
+		return fd, p
+	}
+	if host := u.inlinedInto(rel, name); host != "" {
+		for r := range u.Pkgs {
+			if strings.HasPrefix(host, r+".") && len(host) > len(r)+1 {
+				if fd2, p2 := u.funcDeclExact(r, host[len(r)+1:]); fd2 != nil && r+"."+declName(fd2) == host {
+					return fd2, p2
+				}
+			}
+		}
+	}
+	return nil, p
+}
+
+func (u *Universe) funcDeclExact(rel, name string) (*ast.FuncDecl, *packages.Package) {
 	p := u.Pkgs[rel]
 	if p == nil {
 		return nil, nil
@@ -294,7 +311,58 @@ func declName(fd *ast.FuncDecl) string {
 }
 
 // ssaFunc finds the SSA function for "Func" or "Type.Method" (pointer or value receiver)
+// ssaFunc: the function listed as rel.name. When it no longer exists under any name and exactly one of its callers in the
+// reference tree is left, that caller is answered (the function was inlined into it): the rules anchored in the
+// function then look at the code where it now lives.
 func (u *Universe) ssaFunc(rel, name string) *ssa.Function {
+	if f := u.ssaFuncExact(rel, name); f != nil {
+		return f
+	}
+	if host := u.inlinedInto(rel, name); host != "" {
+		for r := range u.Pkgs {
+			if strings.HasPrefix(host, r+".") && (len(host) > len(r)+1) {
+				if f := u.ssaFuncExact(r, host[len(r)+1:]); f != nil && u.fname(f) == host {
+					return f
+				}
+			}
+		}
+	}
+	return nil
+}
+
+var inlinedLogged = map[string]bool{}
+
+// inlinedInto: "" or the one reference caller ("pkgrel.Name") of the vanished function rel.name that still exists
+func (u *Universe) inlinedInto(rel, name string) string {
+	loadFormerCallers()
+	var left []string
+	for _, c := range formerCallers[rel+"."+name] {
+		for r := range u.Pkgs {
+			if strings.HasPrefix(c, r+".") && len(c) > len(r)+1 {
+				if f := u.ssaFuncExact(r, c[len(r)+1:]); f != nil && u.fname(f) == c {
+					left = append(left, c)
+				}
+			}
+		}
+	}
+	sort.Strings(left)
+	var uniq []string
+	for i, c := range left {
+		if i == 0 || c != left[i-1] {
+			uniq = append(uniq, c)
+		}
+	}
+	if len(uniq) != 1 {
+		return ""
+	}
+	if !inlinedLogged[rel+"."+name] {
+		inlinedLogged[rel+"."+name] = true
+		remergeLog = append(remergeLog, fmt.Sprintf("%s.%s no longer exists (not even under another name); the rules anchored in it look at its only remaining reference caller %s (inlined there)", rel, name, uniq[0]))
+	}
+	return uniq[0]
+}
+
+func (u *Universe) ssaFuncExact(rel, name string) *ssa.Function {
 	u.buildSSA()
 	sp := u.SSAPkgs[rel]
 	if sp == nil {
